@@ -104,6 +104,9 @@ _sha256_ctx_mgr_submit_base(ISAL_SHA256_HASH_CTX_MGR *mgr, ISAL_SHA256_HASH_CTX 
                 return ctx;
         }
 
+        // If we made it here, there were no errors during this call to submit
+        ctx->error = ISAL_HASH_CTX_ERROR_NONE;
+
         if (flags == ISAL_HASH_FIRST) {
 
                 sha256_init(ctx, buffer, len);
